@@ -232,6 +232,63 @@ harness!(
     leak(names);
 });
 
+/// array<boolean> with two blocks of THREE items each.  Boolean items keep every read position a
+/// constant for symex (one byte each, whatever its value); three items per block make every item
+/// buffer the decoder allocates larger than the Box<Schema> holding the item schema, so that with
+/// `--max-field-sensitivity-array-size 164` the latter is constant-folded while the former stays
+/// outside field sensitivity (which avoids a CBMC crash, see DESIGN.md section 7).
+/// Layouts: L=0 [6 a b c 6 d e f 0] positive counts; L=1 [5 6 a b c 5 6 d e f 0] negative counts + byte size.
+fn array3_layout<const L: u8, const LEN: usize>(schema: &Schema, names: &Names, x: [u8; 6]) {
+    let (data, total): ([u8; 11], usize) = match L {
+        0 => ([6, x[0], x[1], x[2], 6, x[3], x[4], x[5], 0, 0, 0], 9),
+        _ => ([5, 6, x[0], x[1], x[2], 5, 6, x[3], x[4], x[5], 0], 11),
+    };
+    if LEN > total {
+        return;
+    }
+    let complete = LEN >= total;
+    let all_bool = x[0] <= 1 && x[1] <= 1 && x[2] <= 1 && x[3] <= 1 && x[4] <= 1 && x[5] <= 1;
+    match run_dec_min(schema, names, data, LEN, LEN) {
+        Some((v, used)) => {
+            assert!(complete && all_bool, "array: Ok for a truncated datum or a byte that is not a boolean");
+            match &v {
+                Value::Array(items) => {
+                    assert!(items.len() == 6, "array length differs from the six items written in two blocks");
+                    let mut i = 0;
+                    while i < 6 {
+                        assert!(matches!(&items[i], Value::Boolean(b) if *b == (x[i] == 1)), "an array item differs (items of the second block lost / shifted?)");
+                        i += 1;
+                    }
+                }
+                _ => assert!(false, "array schema decoded to a non-array value"),
+            }
+            assert!(used == total, "array: consumed != bytes of the datum");
+            leak(v);
+        }
+        None => assert!(!(complete && all_bool), "spec-legal two-block array layout rejected"),
+    }
+}
+
+macro_rules! array3_harness {
+    ($name:ident, $l:literal, $full:literal, $cut:literal) => {
+        harness_nodec!(
+            /// array<boolean>: two blocks of three items, complete and cut inside the second block; all item bytes
+            $name, unwind = 12, {
+            set_limit(64 * std::mem::size_of::<Value>());
+            let x: [u8; 6] = any_bytes();
+            let names = no_names();
+            let schema = array(Schema::Boolean);
+            array3_layout::<$l, $full>(&schema, &names, x);
+            array3_layout::<$l, $cut>(&schema, &names, x);
+            witness!(x[5] == 1 && x[0] == 0, "mixed items");
+            leak(schema);
+            leak(names);
+        });
+    };
+}
+array3_harness!(array_two_blocks_of_three, 0, 9, 6);
+array3_harness!(array_two_negative_blocks_of_three, 1, 11, 8);
+
 harness!(
     /// a reference to an earlier definition is followed through the name table: Ref "E" -> enum
     /// {a,b,c}; all inputs of up to 2 bytes behave as for the enum itself.
@@ -282,5 +339,7 @@ pub const HARNESSES: &[(&str, fn())] = &[
     ("dec2::union_oob", union_oob::body),
     ("dec2::record_", record_::body),
     ("dec2::duration_", duration_::body),
+    ("dec2::array_two_blocks_of_three", array_two_blocks_of_three::body),
+    ("dec2::array_two_negative_blocks_of_three", array_two_negative_blocks_of_three::body),
     ("dec2::ref_", ref_::body),
 ];
